@@ -25,7 +25,7 @@ ASSUMPTIONS = [
     "operator order inside a tick is taken from the log of state-change requests (a wrapper around PipelineRuntimeStatus.transition installed by the harness)",
     "a parent listed twice for one node is outside the statement (never generated)",
 ]
-FLOORS = {"dag_multi_parent": 0.2, "child_started": (0.2, "sim"), "sched_verif-tape": (0.2, "sim"), "bad_start_rejected": (0.01, "sim")}
+FLOORS = {"probe_parent_suspending": 3, "probe_parent_running": 3, "dag_multi_parent": 0.2, "child_started": (0.2, "sim"), "sched_verif-tape": (0.2, "sim"), "bad_start_rejected": (0.01, "sim")}
 SCHEDS = ["naive", "priority", "priority-pool", "overbook", "starter", "verif-tape", "verif-tape", "verif-tape"]
 
 
@@ -44,7 +44,23 @@ def case(draw, tier):
         c["params"]["scheduler_algo"] = "verif-tape"      # the preemption workload under arbitrary custom decisions
     if c["params"]["scheduler_algo"] == "verif-tape":
         c["tape"] = draw(st.lists(st.integers(0, 2 ** 16), min_size=5, max_size=120))
-        if draw(st.integers(0, 3)) == 0:
+        mode = draw(st.integers(0, 4))
+        if mode in (1, 2):
+            # probe policy: one certainly inadmissible decision at a drawn round, whatever its unfinished parent is doing then
+            tps = c["params"]["ticks_per_second"]
+            ram_pool = c["params"]["ram_gb_per_pool"] = draw(st.sampled_from([64, 100, 500, 8]))
+            c["params"]["multi_operator_containers"] = draw(st.sampled_from([True, True, True, False]))
+            c["params"]["cpus_per_pool"] = draw(st.sampled_from([4, 2, 8]))
+            c["probe"] = {"round": draw(st.integers(0, 20)), "k": draw(st.integers(1, 3)),
+                          "ram": round(ram_pool * draw(st.sampled_from([0.3, 0.45, 0.1])), 6), "probe_ram": round(ram_pool * 0.05, 6)}
+            n = draw(st.integers(3, 5))
+            failing = draw(st.sampled_from([-1, -1, -1, 0, 1, 2]))
+            ops = [{"parents": [i - 1] if i else [], "segs": [{"cpu": (draw(st.integers(0, 3)) + 0.5) / tps, "law": "const",
+                                                              "mem": 10 * ram_pool if i == failing else 0.01, "read": 0.0}]}
+                   for i in range(n)]
+            c["arrivals"] = [[0, {"prio": 3, "ops": ops}] for _ in range(draw(st.integers(1, 2)))] + c["arrivals"][:2]
+            c["arrivals"].sort(key=lambda a: a[0])
+        if mode == 0:
             # eager custom policy on identical pipelines: suspensions that start and end together, immediate re-assignment
             tps = c["params"]["ticks_per_second"]
             ram_pool = c["params"]["ram_gb_per_pool"]
@@ -71,7 +87,7 @@ def run_case(spec):
     tape = spec["params"]["scheduler_algo"] == "verif-tape"
     if tape:
         tape_sched.ensure_registered()
-        tape_sched.set_tape(spec["tape"], spec.get("eager_ram"))
+        tape_sched.set_tape(spec["tape"], spec.get("eager_ram"), spec.get("probe"))
     rec, params = run_sim(spec)
     common_labels(out, spec, rec)
     out.label("sim")
@@ -82,6 +98,11 @@ def run_case(spec):
         out.label("child_started")
     if info.get("bad_start_rejected"):
         out.label("bad_start_rejected")
+    if tape:
+        for mv in tape_sched.moves():
+            if mv[0] == "probe":
+                for stt in mv[2]:
+                    out.label("probe_parent_" + stt)
     if rec.exception is not None:
         out.label("run_ended_with_error")
         if not tape:
